@@ -26,8 +26,21 @@ def calls_to(prog, fn, target_fn=None, callee=None, pred=None):
     return out
 
 
-def origins(prog, fn, op):
-    return Tracer(prog, fn).operand(op)
+_TRACERS = {}
+
+
+def tracer(prog, fn):
+    k = (id(prog), fn.id)
+    t = _TRACERS.get(k)
+    if t is None:
+        t = Tracer(prog, fn)
+        _TRACERS[k] = t
+    return t
+
+
+def origins(prog, fn, op, at=None):
+    """Origins of an operand; with `at` = block of the use, only definitions that can reach that block."""
+    return tracer(prog, fn).operand(op, at=at)
 
 
 def origin_calls(prog, fn, op):
